@@ -80,7 +80,7 @@ def confirm(src):
 def run(sid, checks=None, tier='quick'):
     d = SEEDED + '/' + sid
     meta = json.load(open(d + '/meta.json'))
-    prop = re.match(r'C\d\d', meta['property']).group(0)
+    prop = (re.match(r'C\d\d', meta['property']) or re.match(r'C\d\d', meta['id'])).group(0)
     checks = checks or [prop] + meta.get('also', [])
     rc, out = sh(['git', '-C', '/repo', 'status', '--porcelain'])
     assert out.strip() == '', '/repo is not clean: ' + out
@@ -146,7 +146,7 @@ def main():
             res = m.get('results', {})
             caught = [c for c, r in sorted(res.items()) if r.get('caught')]
             missed = [c for c, r in sorted(res.items()) if not r.get('caught')]
-            own = re.match(r'C\d\d', m['property']).group(0)
+            own = (re.match(r'C\d\d', m['property']) or re.match(r'C\d\d', m['id'])).group(0)
             first = (res.get(own, {}).get('first') or '').replace('|', '/').replace('\n', ' ')[:110]
             summ = m.get('summary', '').replace('|', '/').replace('\n', ' ')
             if len(summ) > 230:
